@@ -4,4 +4,6 @@ E1(u) == [udpId |-> u]
 MCLists == {<<>>} \cup {<<E1(a)>> : a \in 1..2} \cup {<<E1(a), E1(b)>> : a, b \in 1..3} \cup {<<E1(a), E1(b), E1(c)>> : a, b, c \in 1..3}
            \cup {<<E1(2), E1(3), E1(2), E1(1)>>, <<E1(1), E1(2), E1(3), E1(1)>>, <<E1(3), E1(2), E1(3), E1(2)>>}
 AllOutcomes == {"ok", "timeout", "http", "api"}
+SomeOutcomes == {"ok", "timeout", "api"}
+TwoLists == {<<E1(2), E1(1)>>, <<E1(2)>>}
 =======================================================================
